@@ -31,6 +31,29 @@ def shards(tier):
     return e1.std_shards(tier, with_p=True, with_big=True)
 
 
+def light_args(length):
+    """Query sets: every subset up to 8 members; for longer axes the empty set, the
+    singletons at the word boundaries and at both ends, their pairs, the full set
+    and the complements of those singletons (C01 explores the derivation operators
+    on wide tables in depth; here the lookup on top of them is what is judged)."""
+    if length <= 8:
+        return arg_sets(length)
+    from .C01 import BOUNDARY
+    import itertools
+    inter = sorted({p for p in BOUNDARY if p < length} | {length - 1, length - 2, length // 2})
+    if length <= 20:
+        inter = list(range(length))
+    full = tuple(range(length))
+    out = [()] + [(i,) for i in inter] + list(itertools.combinations(inter[:4] + inter[-4:], 2)) \
+        + [full] + [tuple(x for x in full if x != i) for i in inter[:3] + inter[-3:]]
+    seen, res = set(), []
+    for a in out:
+        if a not in seen:
+            seen.add(a)
+            res.append(a)
+    return res
+
+
 def check_case(case, ctr):
     V = []
     ref, ctx = case.ref, case.ctx
@@ -46,7 +69,7 @@ def check_case(case, ctr):
 
     closures = {'o': {}, 'p': {}}
     for axis, length, labs in (('o', case.n, case.objs), ('p', case.m, case.props)):
-        for arg in arg_sets(length):
+        for arg in light_args(length):
             if axis == 'o':
                 e = ref.closure_objs(arg)
                 i = ref.intent_of(arg)
